@@ -116,7 +116,9 @@ impl BBSplusPublicKey {
 
 #[derive(Clone, PartialEq, Eq, Debug, Serialize, Deserialize)]
 /// Represents a BBS+ secret key.
-pub struct BBSplusSecretKey(pub Scalar);
+pub struct BBSplusSecretKey(
+    #[serde(deserialize_with = "crate::utils::util::bbsplus_utils::checked_serde::scalar_not_zero")] pub Scalar,
+);
 
 impl BBSplusSecretKey {
     /// In Big Endian order
@@ -151,6 +153,10 @@ impl BBSplusSecretKey {
             .map_err(|_| Error::KeyDeserializationError)?;
         let s = Scalar::from_be_bytes(&bytes);
         if s.is_none().into() {
+            return Err(Error::KeyDeserializationError);
+        }
+        // the zero scalar is not a secret key (KeyGen never returns it): its public key is the identity
+        if s.unwrap() == Scalar::ZERO {
             return Err(Error::KeyDeserializationError);
         }
 
